@@ -50,6 +50,62 @@ func (c *Ctx) ruleUnsetNil(rule string) {
 			}
 		}
 	}
+	// a disabled property can never be supplied, so Unserialize always leaves its field at the zero value; for a field
+	// that is not a pointer the zero value is all there is - the presence function must report it as unset, or Validate
+	// and Serialize (which refuse a disabled property that is in use) refuse every value of the struct
+	for _, fn := range c.M.SortedFuncs(c.scopePkg("schema")) {
+		if !isPresenceFunction(fn) {
+			continue
+		}
+		k := key(rule, c.M.Key(fn), "the zero value in the field of a disabled property is reported as unset")
+		handled := false
+		for _, b := range fn.Blocks {
+			if len(b.Instrs) == 0 {
+				continue
+			}
+			ifi, ok := b.Instrs[len(b.Instrs)-1].(*ssa.If)
+			if !ok {
+				continue
+			}
+			ld, ok := ifi.Cond.(*ssa.UnOp)
+			if !ok || ld.Op != token.MUL {
+				continue
+			}
+			fa, ok := ld.X.(*ssa.FieldAddr)
+			if !ok || fieldName(fa.X.Type(), fa.Field) != "Disabled" {
+				continue
+			}
+			target := b.Succs[0]
+			for _, nb := range fn.Blocks {
+				if nb != target && !blockReaches(target, nb, nil) {
+					continue
+				}
+				if len(nb.Instrs) == 0 {
+					continue
+				}
+				nif, ok := nb.Instrs[len(nb.Instrs)-1].(*ssa.If)
+				if !ok {
+					continue
+				}
+				zc, ok := nif.Cond.(*ssa.Call)
+				if !ok || reflectValueMethod(zc) != "IsZero" {
+					continue
+				}
+				yes := nb.Succs[0]
+				for _, r := range core.ReturnsOf(fn) {
+					if core.IsNilConst(core.RetVal(r, 0)) && (r.Block() == yes || blockReaches(yes, r.Block(), nil)) {
+						handled = true
+					}
+				}
+			}
+		}
+		if handled {
+			c.R.Ok(rule, k, c.M.Pos(fn.Pos()), "presence of a struct-mapped property", "a Disabled edge leads to an IsZero() test whose true edge leads to the nil (unset) return")
+		} else {
+			c.R.Bad(rule, k, c.M.Pos(fn.Pos()), "the zero value of a disabled property's field counts as a supplied value",
+				"Validate and Serialize refuse a disabled property that is in use; a non-pointer field always holds a value, so every value of a struct with a disabled property - including what Unserialize just returned - is refused")
+		}
+	}
 	if n == 0 {
 		c.R.Unresolved(rule, "the function that decides whether a struct-mapped property is set")
 	}
